@@ -1,7 +1,7 @@
 (* C03 — Replay window: a captured datagram dies within two housekeeping ticks.
    Pinned statements only.  Counters are >= 1 (a sender increments before its first seal; the
    all-zero nonce is never produced), which is the `pos_hist` premise. *)
-From VpnModel Require Import Base Nonce Replay ReplayProofs Core CoreProofs Conn PeerCrypto NodeInfo Table Node TickProofs NextHopProofs TickPeersProofs.
+From VpnModel Require Import Base Nonce Replay ReplayProofs Core CoreProofs Conn PeerCrypto NodeInfo Table Node TickProofs NextHopProofs TickPeersProofs PcInvariant CoreWfProofs.
 
 (* T1: for every history of deliveries and ticks the three-register window accepts exactly the
    deliveries the history-only reference accepts: counter greater than every counter accepted
@@ -79,6 +79,22 @@ Theorem C03_reachable_tick_peers_once : forall salts c t0 evs,
   forall a, aget (n_peers (fst (fst (tick_peers n)))) a = option_map tick_pd (aget (n_peers n) a).
 Proof. exact reachable_tick_peers_once_full. Qed.
 
+(* T7 (node, closing the chain): in EVERY reachable node state the crypto core of every connection is well-formed (four key slots,
+   sending slot in range: the premise of the window theorems above), and one housekeeping pass over the peers moves the replay
+   window of every key slot of every encrypted peer connection - or re-keys the slot, which starts a fresh window *)
+Theorem C03_reachable_cores_wf : forall c salts t0 evs,
+  let n := nrun salts (node_new c t0) evs in
+  (forall a pd co, aget (n_peers n) a = Some pd -> pc_core (p_crypto pd) = Some co -> wf_core co) /\
+  (forall a pc co, aget (n_pending n) a = Some pc -> pc_core pc = Some co -> wf_core co).
+Proof. exact reachable_cores_wf. Qed.
+
+Theorem C03_reachable_housekeeping_moves_every_window : forall c salts t0 evs a pd co,
+  let n := nrun salts (node_new c t0) evs in
+  aget (n_peers n) a = Some pd -> pc_core (p_crypto pd) = Some co ->
+  exists pd' co', aget (n_peers (fst (fst (tick_peers n)))) a = Some pd' /\ pc_core (p_crypto pd') = Some co' /\ wf_core co' /\
+    forall i, i < 4 -> s_win (get_slot co' i) = tick (s_win (get_slot co i)) \/ s_win (get_slot co' i) = win0.
+Proof. exact reachable_housekeeping_moves_every_window. Qed.
+
 (* non-vacuity *)
 Example C03_ex_history :
   fst (run win0 [Deliver 5; Deliver 3; Tick; Deliver 4; Tick; Deliver 4; Deliver 6; Tick; Deliver 5; Deliver 7])
@@ -89,6 +105,9 @@ Proof. repeat constructor; discriminate. Qed.
 
 Example C03_ex_node_tick : map fst (n_peers (fst (fst (tick_peers ex_b)))) = [1001].
 Proof. exact ex_tick_peers. Qed.
+
+Example C03_ex_peer_has_core : exists pd co, aget (n_peers ex_b) 1001 = Some pd /\ pc_core (p_crypto pd) = Some co.
+Proof. exact ex_peer_has_core. Qed.
 
 Print Assumptions C03_accept_iff.
 Print Assumptions C03_invariant.
@@ -102,3 +121,5 @@ Print Assumptions C03_core_rotate_fresh.
 Print Assumptions C03_every_second_ticks_windows.
 Print Assumptions C03_tick_peers_once.
 Print Assumptions C03_reachable_tick_peers_once.
+Print Assumptions C03_reachable_cores_wf.
+Print Assumptions C03_reachable_housekeeping_moves_every_window.
